@@ -262,6 +262,9 @@ type Kernel struct {
 	// PsHold: requests on the periodic server's connection are held (PsHeld counts them) until the flag is cleared.
 	PsHold atomic.Bool
 	PsHeld atomic.Int64
+	// MainHold: the same for requests on the event loop's connection.
+	MainHold atomic.Bool
+	MainHeld atomic.Int64
 	// MultiErrIfMissing: a multi-URR usage query naming a URR that no longer exists is answered ENOENT as a whole instead of skipping it.
 	MultiErrIfMissing atomic.Bool
 	// Fail, when set, decides the errno (0 = proceed) of a request before it takes effect.
@@ -324,6 +327,13 @@ func (k *Kernel) serve(c *Conn, name string) {
 		}
 		if d := k.PsLatency.Load(); d > 0 && name == "ps" {
 			time.Sleep(time.Duration(d))
+		}
+		if name == "main" && k.MainHold.Load() {
+			// the event loop's own request stays inside the data plane until released (30 s at most)
+			k.MainHeld.Add(1)
+			for i := 0; i < 300000 && k.MainHold.Load() && !k.closed.Load(); i++ {
+				time.Sleep(100 * time.Microsecond)
+			}
 		}
 		if name == "ps" && k.PsHold.Load() {
 			// the harness owns the schedule: the request stays inside the data plane until it is released (30 s at most)
